@@ -30,7 +30,7 @@ class BuiltinsMixin:
         (numbered in evaluation order) so that the same specification evaluated twice yields identical terms."""
         k = self._bcount
         self._bcount += 1
-        return z3.Const(f"bv{k}_{prefix}", sort)
+        return z3.Const(f"bv{k}_{sort}", sort)     # positional name: alpha-equivalent formulas become identical terms
 
     # ---- builtin functions --------------------------------------------------------------
     def call_builtin(self, s, fn, args, kwargs, node):
@@ -796,6 +796,11 @@ class BuiltinsMixin:
                 res.append((s2, [], z3.BoolVal(True)))
             return res
         k = it.ty.kind
+        if k == "opt":
+            # iterating None raises TypeError: obligation that the value is not None here, then iterate the payload
+            if not self.spec_mode:
+                self.emit(st, "not-none@iteration", z3.Not(self.is_none(it)), note="iterated Optional value is not None")
+            return self.iter_instances(self.unwrap(it), target, st)
         if k == "set":
             elems = self.explicit_elements(it)
             if elems is not None:
@@ -1240,7 +1245,23 @@ def _sf_hide(self, n, st):
         self.unfold_specs = prev
 
 
-SPECIAL_FORMS = {"hide": _sf_hide, "reveal": _sf_reveal, "use": _sf_use, "forall": _sf_forall, "exists": _sf_exists, "implies": _sf_implies, "old": _sf_old}
+def _sf_in_lang(self, n, st):
+    from . import rx
+    pat = self.ev_pure(n.args[0], st)
+    subj = self.ev_pure(n.args[1], st) if not self.binder_depth else self.ev_under_binder(n.args[1], st)
+    text = pat.t if pat.is_py else pat.t.as_string()
+    import re as _re
+    key = (text, "spec-fullmatch")
+    lang = self._rx_cache.get(key)
+    if lang is None:
+        lang = rx.Lang(text, _re.DOTALL).fullmatch_lang()
+        self._rx_cache[key] = lang
+    if subj.is_py:
+        subj = self.lift(subj.t)
+    return [(st, Val(BOOL, z3.InRe(subj.t, lang)))]
+
+
+SPECIAL_FORMS = {"in_lang": _sf_in_lang, "hide": _sf_hide, "reveal": _sf_reveal, "use": _sf_use, "forall": _sf_forall, "exists": _sf_exists, "implies": _sf_implies, "old": _sf_old}
 
 _PURE_BUILTINS = {"len", "bool", "str", "int", "repr", "isinstance", "issubclass", "sorted", "reversed", "min", "max", "any",
                   "all", "set", "frozenset", "list", "tuple", "dict", "getattr", "hasattr", "abs", "sum", "ord", "chr",
